@@ -1,34 +1,64 @@
 PROP = dict(
-    drivers=['Font', 'Tdf'],
-        gens=['unsafe_sites'],
+    drivers=['Font', 'Tdf', 'FontBox'],
+        gens=['unsafe_sites', 'xb', 'binfmt', 'icy'],
         lake=['IcyVerif.Props.C17'],
         ns='IcyVerif.C17',
-        theorems=['psf2_rt', 'raw_rt_partial', 'raw_magic_counterexample', 'basic_rt', 'dcs_rt_partial',
-                  'icy_font_chunk_rt', 'tdf_rt', 'tdf_bundle_rt', 'tdf_oversize_rejected'],
+        theorems=['psf2_rt', 'raw_rt_exact', 'raw_rt_partial', 'raw_magic_counterexample', 'raw_psf2_witnesses', 'raw_512_reads_as_double_height', 'basic_rt',
+                  'clip_rt', 'dcs_rt_exact', 'dcs_rt_partial', 'icy_font_chunk_rt',
+                  'font_block_position', 'xb_font_rt_partial', 'xb_named_default_violates', 'adf_font_rt', 'idf_font_rt',
+                  'adf_idf_font_rt_nosauce_partial', 'icy_font_rt',
+                  'tdf_rt', 'tdf_bundle_rt', 'tdf_oversize_rejected'],
         harness='c17',
         harness_timeout=1500,
         design='DESIGN.md §4 C17',
-        technique='Lean 4 proofs (induction over glyph tables / rows / font lists) that decode∘encode is the identity, over '
+        technique='Lean 4 proofs (induction over glyph tables / rows / font lists / byte strings) that decode∘encode is the identity, over '
                   'executable models of src/fonts.rs (to_psf2_bytes, from_bytes with PSF1/PSF2/raw sniffing, convert_to_u8_data, '
-                  'glyphs_from_u8_data, create_8/from_basic, the CTerm:Font DCS payload with base64/decimal formatting as an abstract '
-                  'inverse pair) and src/tdf_font/mod.rs (add_font_data/as_tdf_bytes/create_font_bundle, from_tdf_bytes with all its '
-                  'error and panic outcomes). Well-formedness hypotheses are decidable; every excluded point is executed on the '
-                  'implementation. Differential correspondence (bytes hashed) ties writers and readers to the models on in-domain, '
-                  'boundary and damaged inputs; the oracle runs every round trip on the real crate including the XBin/ADF/IDF/IcyDraw '
-                  'containers (whose byte layouts are C05/C07 models).',
+                  'glyphs_from_u8_data, create_8/from_basic, get_clipboard_data/from_clipbard_data, the CTerm:Font DCS payload with an '
+                  'EXECUTABLE base64 and decimal codec whose laws are proved: decode(encode x) = x for every byte string, '
+                  'parse(format n) = n for every usize) and src/tdf_font/mod.rs (add_font_data/as_tdf_bytes/create_font_bundle, '
+                  'from_tdf_bytes with all its error and panic outcomes). Raw and DCS round trips are proved as an IFF under the exact '
+                  'decidable guard rawGuard (PSF1 magic: never; PSF2 magic: only the overlay header; else always), with kernel-checked '
+                  'witnesses on both sides. Containers: on top of the byte-exact C05 (XBin/ADF/IDF) and C07 (IcyDraw) models — position '
+                  'of every font block for EVERY picture the writers accept (font_block_position), XBin font round trip as a corollary '
+                  'of C05 xb_rt (one or two fonts, every palette/flag/picture of its domain), ADF/IDF font round trips re-proved from '
+                  'C05 loader lemmas WITHOUT the clause about font names, IcyDraw FONT_n slots as a corollary of C07 doc_rt with the real '
+                  'PSF2 codec. Well-formedness hypotheses are decidable; every excluded point is executed on the implementation. '
+                  'Differential correspondence (bytes hashed) ties writers and readers to the models on in-domain, boundary and damaged '
+                  'inputs, including whole container files (length, hash, font block offsets, loaded fonts) and IcyDraw chunk sequences '
+                  '(own PNG/zTXt/inflate/base64 reader).',
         rule='cases: 256-glyph fonts of EVERY height 1..=32 (filler and random glyph bytes, all-0/all-1/byte-pattern rows), 512-glyph '
-             'fonts, every built-in font page 0..=42 and every SAUCE font, each through PSF2, raw, create_8, the DCS sequence via the '
-             'real ANSI parser, XBin (compressed and not), ADF, IDF, IcyDraw; malformed PSF1/PSF2/raw/DCS inputs for the decoder '
-             'correspondence; TheDraw fonts of all three types with 0..=94 glyphs of 1..=30 x 1..=12, names 0..=12 bytes incl. non-ASCII, '
-             'maximal fonts, oversize fonts, excluded points (NUL in name, 13-byte name, spacing 41/-1, 0 byte in data, odd colour data, '
-             'size > 255), bundles of 1..=34 fonts, damaged TDF files. distinct_nontrivial = distinct fonts',
+             'fonts of every height, every built-in font page 0..=42 and every SAUCE font, each through PSF2 (also via a file and '
+             'BitFont::load), raw, create_8, the clipboard glyph encoding, the DCS sequence via the real ANSI parser (slot numbers over '
+             'the whole usize range, all three base64 padding shapes), raw data starting with PSF1/PSF2 magic incl. the overlay header '
+             'and its near misses; CONTAINERS: XBin x {default, custom} palette x {no, one, two (512-character mode)} custom fonts x '
+             'heights {1,8,14,16,19,32} x compressed/raw x SAUCE/none, built-in pages 0/26/42(+2 random; all in thorough) and every '
+             'SAUCE font next to a custom palette and as first/second font, pages other than 0/1, a font named like the default; '
+             'ADF and IDF x palette x SAUCE x (IDF) run-length coding x glyph patterns / built-in pages / SAUCE fonts / default-named '
+             'font; IcyDraw documents with 1..5 font slots (256 and 512 glyphs, heights 1..=32, built-in fonts, UTF-8 names) x palette '
+             'x SAUCE x 1..3 layers; glyph patterns all 0x00, all 0xFF, glyph index, byte position (a shift by k glyphs or k bytes '
+             'shows); font-block offsets checked against the format layout and the model; malformed PSF1/PSF2/raw/DCS inputs for the '
+             'decoder correspondence; TheDraw fonts of all three types with 0..=94 glyphs of 1..=30 x 1..=12, names 0..=12 bytes incl. '
+             'non-ASCII, maximal fonts, glyph data ending 1 below / at / 1 above the 16-bit limit, oversize fonts, excluded points (NUL '
+             'in name, 13-byte name, spacing 41/-1, 0 byte in data, odd colour data, size > 255), bundles of 1..=34 fonts (also via a '
+             'file and TheDrawFont::load), damaged TDF files incl. every header field in turn and glyph offsets at the block/file '
+             'boundary. distinct_nontrivial = distinct fonts / container cases',
         modelled='BitFont::{to_psf2_bytes, from_bytes, load_psf1, load_psf2, load_plain_font, convert_to_u8_data, calculate_checksum, '
-                 'create_8, from_basic, encode_as_ansi}, glyphs_from_u8_data, Parser::load_custom_font (payload level), IcyDraw '
-                 'read/write_utf8_encoded_string; TheDrawFont::{as_tdf_bytes, add_font_data, create_font_bundle, from_tdf_bytes}',
-        not_modelled='XBin/ADF/IDF/IcyDraw container layouts (C05/C07; covered here by the oracle run only); DCS framing in the ANSI '
-                     'parser (exercised by the oracle); crate base64 and integer formatting (abstract in the theorems, real in the run); '
-                     'TheDrawFont::render; font name guessing (guess_font_name) — names are not part of the property',
-        assumptions=['base64 STANDARD: decode(encode(x)) = x; format!("{n}") parses back to n and contains no colon (CodecLaws)',
+                 'create_8, from_basic, encode_as_ansi, get_clipboard_data}, Glyph::from_clipbard_data, glyphs_from_u8_data, '
+                 'Parser::load_custom_font (payload level, with executable base64 STANDARD and usize formatting/parsing), IcyDraw '
+                 'read/write_utf8_encoded_string and the FONT_n chunk inside C07\'s document model; the font blocks of XBin/ADF/IDF '
+                 'files inside C05\'s writer/loader models (position, embedding decision, 512-character mode); '
+                 'TheDrawFont::{as_tdf_bytes, add_font_data, create_font_bundle, from_tdf_bytes}',
+        not_modelled='DCS framing in the ANSI parser (ESC P … ESC \\; exercised by the oracle through the real parser); crates base64 / '
+                     'png / flate2 themselves (the model has its own base64; PNG container and zTXt compression are parameters of C07\'s '
+                     'model, read back in the harness by an independent inflater); BitFont::load / TheDrawFont::load file I/O (oracle '
+                     'only); TheDrawFont::render / FontGlyph::render / transform_outline (drawing, not an encoding); font name guessing '
+                     '(guess_font_name) — names are compared only for IcyDraw, which stores them; Buffer::set_sauce applying a SAUCE '
+                     'font name (overwritten by the embedded font in every format here)',
+        assumptions=['the executable base64 / decimal codec of Model/Base64.lean behaves like crate base64 STANDARD and std {} / '
+                     'parse::<usize> (its laws are PROVED; the equality with the crates is checked by the correspondence run on every '
+                     'DCS case)',
+                     'C05 (Model/BinFormats.lean) and C07 (Model/IcyDraw.lean) model the container writers/loaders (their own checks; '
+                     're-tied here on every container case: file length+hash, block offsets, loaded fonts, chunk keywords, FONT_n payloads)',
                      'TheDrawFont::char_table is private: decoded glyph sizes/data are read through the add-only hook '
                      'TheDrawFont::verif_glyph (cfg icy_engine_verif)'],
     )
